@@ -3,6 +3,8 @@
 #include "common.hpp"
 #include "registry.hpp"
 #include <fstream>
+#include <algorithm>
+#include "tableface.hpp"
 
 using namespace grv;
 
@@ -23,7 +25,10 @@ GRV_CMD(shape) {
         const double ppm = j->has("ppm") ? (*j)["ppm"].dbl() : 0;
         const long maxlines = j->get("maxlines", 1000000), chunk = j->get("chunk", 0);
         set_case("shape load %s", font.c_str());
-        gr_face *face = gr_make_file_face(font.c_str(), opts);
+        TableFace tfc;
+        const bool viaops = j->has("src") && (*j)["src"].s == "ops";
+        if (viaops && !tfc.load(font)) { fprintf(stderr, "cannot read %s\n", font.c_str()); return 2; }
+        gr_face *face = viaops ? tfc.make(opts) : gr_make_file_face(font.c_str(), opts);
         if (j->has("noload")) {      // the job states that this font must be refused
             if (face) { vj::W w; w.str("font", font).str("id", id); report_fail((*j)["noload"].s.c_str(), "a font that must be refused was loaded", w.done()); gr_face_destroy(face); }
             ++g_cases; continue;
@@ -51,8 +56,11 @@ GRV_CMD(shape) {
                 else texts.push_back(t);
             }
         }
+        const bool fresh = j->get("fresh", 0) != 0;      // a new face for every text (cold reference)
+        if (j->get("reverse", 0)) std::reverse(texts.begin(), texts.end());
         long k = 0;
         for (auto &t : texts) {
+            if (fresh) { if (gf) gr_font_destroy(gf); gr_face_destroy(face); face = viaops ? tfc.make(opts) : gr_make_file_face(font.c_str(), opts); gf = ppm > 0 ? gr_make_font(float(ppm), face) : 0; }
             set_case("shape %s seg=%ld opts=%d dir=%d ppm=%g", id.c_str(), k, opts, dir, ppm);
             gr_segment *seg = gr_make_seg(gf, face, 0, 0, gr_utf32, t.data(), t.size(), dir);
             ++segs; ++g_cases;
